@@ -2,7 +2,8 @@
    pyipmi.hpm.UpgradeImage, Model/HpmUpload.v against Hpm.upload_binary driven through
    harness/fakeif.py, and the Gallina reference device against its Python copy. *)
 From Coq Require Import NArith ZArith List Bool.
-From PyIpmi Require Import Lib.Res Lib.Bytes Lib.Prog Model.HpmImage Model.HpmUpload Model.HpmDevice.
+From PyIpmi Require Import Lib.Res Lib.Bytes Lib.Prog Model.HpmImage Model.HpmUpload Model.HpmDevice
+  Model.HpmUpgrade Model.HpmUpgradeSpec.
 Import ListNotations.
 Open Scope N_scope.
 
@@ -97,3 +98,43 @@ Definition chk_device (plan : list answer) (tr : list (request * reply)) : bool 
 Definition chk_upload_dev (block_size : nat) (binary : list N) (timeout interval : N) (retry : Z)
            (plan : list answer) (tr : list (request * reply)) (sleeps : list N) (outcome : res unit) : bool :=
   chk_upload block_size binary timeout interval retry tr sleeps outcome && chk_device plan tr.
+
+(* ---- upgrade drivers (Model/HpmUpgrade.v): any driver prog, written out by the harness,
+   replayed against the replies recorded from the real method ---- *)
+Definition chk_clientA {A} (eqb : A -> A -> bool) (p : prog A) (tr : list (request * reply))
+           (sleeps : list N) (outcome : res A) : bool :=
+  let '(r, qs, sl, unread) := replay p (map snd tr) [] [] in
+  res_same eqb r outcome && list_eqb request_eqb qs (map fst tr) && bytes_eqb sl sleeps
+  && match unread with [] => true | _ => false end.
+
+Definition selftest_eqb (a b : N * option (list N) * list N) : bool :=
+  let '(s1, o1, l1) := a in let '(s2, o2, l2) := b in
+  (s1 =? s2) && option_eqb bytes_eqb o1 o2 && bytes_eqb l1 l2.
+Definition optN_eqb := option_eqb N.eqb.
+Definition ident_eqb (a b : N * N * N) : bool :=
+  let '(x1, y1, z1) := a in let '(x2, y2, z2) := b in (x1 =? x2) && (y1 =? y2) && (z1 =? z2).
+
+(* install_component_from_file on the recorded replies, and the Gallina upgrade device on
+   the recorded requests *)
+Fixpoint udev_replies (s : ustate) (tr : list (request * reply)) : bool :=
+  match tr with
+  | [] => true
+  | (q, rp) :: r => let '(s', rp') := upg_device s q in reply_eqb rp rp' && udev_replies s' r
+  end.
+Definition chk_udevice (block_plans : list (list answer)) (cmd_plan : list answer) (ident : N * N * N)
+           (present : N) (down : nat) (tr : list (request * reply)) : bool :=
+  udev_replies (u_init block_plans cmd_plan ident present down) tr.
+Definition chk_install (file : list N) (component tick : N) (tr : list (request * reply))
+           (sleeps : list N) (outcome : res unit) : bool :=
+  chk_client (install_component_from_file file component tick) tr sleeps outcome.
+Definition chk_install_dev (file : list N) (component tick : N)
+           (block_plans : list (list answer)) (cmd_plan : list answer) (ident : N * N * N)
+           (present : N) (down : nat)
+           (tr : list (request * reply)) (sleeps : list N) (outcome : res unit) : bool :=
+  chk_install file component tick tr sleeps outcome && chk_udevice block_plans cmd_plan ident present down tr.
+(* a single driver against the upgrade device *)
+Definition chk_driver_dev (p : prog unit) (block_plans : list (list answer)) (cmd_plan : list answer)
+           (tr : list (request * reply)) (sleeps : list N) (outcome : res unit) : bool :=
+  chk_client p tr sleeps outcome && chk_udevice block_plans cmd_plan (0, 0, 0) 0 0 tr.
+Definition chk_version_from_file (file : list N) (observed : res (option version)) : bool :=
+  res_same (option_eqb version_eqb) (get_upgrade_version_from_file file) observed.
